@@ -645,15 +645,15 @@ def run(ctx):
             failing = diff
     if not err and not failing:
         from . import gen_hash, gen_set, gen_stream, gen_zset
-        nf = 150 if quick else 3000
+        nf = 150 if quick else 1200
         r0 = random.Random(ctx.seed)
         zs = gen_zset.gen_c12(ctx.seed, "quick")
         fam = (gen_hash.directed() + gen_hash.gen_c10(ctx.seed, nf) + gen_set.directed() + gen_set.gen_c11(ctx.seed, nf)
                + (r0.sample(zs, min(len(zs), nf))) + gen_stream.gen_c18(ctx.seed, nf))
         plan = [("m", gen_cluster.gen_c14_model_cases(ctx.seed, 500 if quick else 8000), True),
+                ("p", gen_cluster.gen_c14_par_cases(ctx.seed, 300 if quick else 5000), "par"),
                 ("w", gen_cluster.gen_c14_wire_cases(ctx.seed, 300 if quick else 5000), True),
-                ("fam", fam, True),
-                ("p", gen_cluster.gen_c14_par_cases(ctx.seed, 300 if quick else 5000), "par")]
+                ("fam", fam, True)]
         cdir = lib.VERIF / "corpus"
         for f in sorted(cdir.glob("c14_*.prog")):
             plan.insert(0, ("corpus_" + f.stem, f.read_text(), True))
